@@ -286,11 +286,16 @@ func runC07(c *Ctx) {
 		}
 		// output = first result of the map
 		outs := arrayEffects(p, dec, dec.Params[0])
-		if len(outs) != 1 || outs[0].Kind != "copy-into" {
+		if len(outs) != 1 || (outs[0].Kind != "copy-into" && outs[0].Kind != "store-whole") {
 			bad = "publicKey is written by [" + effKinds(outs) + "]"
 			return
 		}
-		bc, _ := callOf(unspill(outs[0].Src))
+		outSrc := outs[0].Src
+		if outs[0].Kind == "store-whole" {
+			// *publicKey = [32]byte(u.Bytes())
+			outSrc = arrayConvSource(outs[0].Val)
+		}
+		bc, _ := callOf(unspill(outSrc))
 		if bc == nil || p.CalleeID(bc.Common()) != "(*"+feT+").Bytes" {
 			bad = "publicKey is not the serialisation of a field element"
 			return
@@ -604,9 +609,12 @@ func runC07(c *Ctx) {
 				}
 			}
 			if !okR && bad == "" {
-				// dominated by the call's success?
+				// dominated by the call's success, or on the path without Elligator
 				for _, f := range ff.NC(r.Block()) {
 					if unspill(f.Cond) == ssa.Value(call) && f.Pol {
+						okR = true
+					}
+					if unspill(f.Cond) == ssa.Value(newKp.Params[0]) && !f.Pol {
 						okR = true
 					}
 				}
@@ -654,14 +662,14 @@ func runC07(c *Ctx) {
 			bad = "the digest is not SHA-512"
 			return
 		}
-		if unspill(hc.Common().Args[0]) != unspill(draws[0].Common().Args[0]) || !instrDominates(draws[0], hc) {
+		if !sameByteView(hc.Common().Args[0], draws[0].Common().Args[0]) || !instrDominates(draws[0], hc) {
 			bad = "the digest is not taken over the freshly drawn bytes"
 			return
 		}
 		// copy(priv, digest[:]) where priv is the drawn slice over private.Bytes()
 		cp := false
 		for _, cc := range p.CallsIn(newKp, "builtin:copy") {
-			if unspill(cc.Common().Args[0]) == unspill(draws[0].Common().Args[0]) {
+			if sameByteView(cc.Common().Args[0], draws[0].Common().Args[0]) {
 				if sl, ok := unspill(cc.Common().Args[1]).(*ssa.Slice); ok && unspill(sl.X) == ssa.Value(dg) && sl.Low == nil {
 					cp = instrDominates(cc, call)
 				}
@@ -789,4 +797,33 @@ func rootGlobal(v ssa.Value) (*ssa.Global, bool) {
 		break
 	}
 	return nil, false
+}
+
+// sameByteView: the same slice value, or whole-array slices of the same array.
+func sameByteView(a, b ssa.Value) bool {
+	a, b = unspill(a), unspill(b)
+	if a == b {
+		return true
+	}
+	sa, ok1 := a.(*ssa.Slice)
+	sb, ok2 := b.(*ssa.Slice)
+	if ok1 && ok2 && sa.Low == nil && sa.High == nil && sb.Low == nil && sb.High == nil {
+		return unspill(sa.X) == unspill(sb.X) || objKey(sa.X) == objKey(sb.X)
+	}
+	return false
+}
+
+// arrayConvSource: for v = [N]byte(slice) (a slice-to-array conversion, which
+// go/ssa renders as *SliceToArrayPointer(slice)), the slice.
+func arrayConvSource(v ssa.Value) ssa.Value {
+	v = unspill(v)
+	if u, ok := v.(*ssa.UnOp); ok && u.Op == token.MUL {
+		if c, ok := u.X.(*ssa.SliceToArrayPointer); ok {
+			return c.X
+		}
+	}
+	if c, ok := v.(*ssa.Convert); ok {
+		return c.X
+	}
+	return v
 }
